@@ -72,12 +72,16 @@ def build_and_run(cell, inputs, scratch, out):
     return confirmed
 
 
-def replay_violation(pid, cell, result, failed, path, scratch):
+def replay_violation(pid, cell, result, failed, path, scratch, all_failed=None):
     out = []
     out.append("property: %s" % pid)
     out.append("cell: %s" % result["cell"])
     out.append("failed obligation: %s" % failed["property"])
     out.append("description: %s" % failed.get("description", ""))
+    if all_failed and len(all_failed) > 1:
+        out.append("all failed obligations of this cell (%d):" % len(all_failed))
+        for f in all_failed[:60]:
+            out.append("  %s : %s" % (f["property"], f.get("description", "")[:160]))
     loc = failed.get("location") or {}
     if loc:
         out.append("location (in extracted unit): %s:%s function %s" % (loc.get("file"), loc.get("line"), loc.get("function")))
